@@ -656,6 +656,32 @@ pub enum Lowered {
     Panic(PanicInfo),
 }
 
+pub enum LoweredSps {
+    Ok(Box<zydeco_stackir::SpsLowProgram>),
+    Refused(String),
+    Panic(PanicInfo),
+}
+
+/// The pipeline up to SPSLow only (what `BackendProgram::lower` does before the assembly lowering): C19 needs
+/// the first-order program even for sources whose later assembly lowering is a listed finding.
+pub fn lower_to_sps(exe: ExecutableProgram) -> LoweredSps {
+    use zydeco_stackir::{BuiltinRootLowerer, SpsLowPipeline};
+    use zydeco_utils::pass::CompilerPass;
+    use zydeco_surface::scoped::arena::ScopedArena;
+    let r = catch(|| {
+        let ExecutableProgram { spans, scoped, statics, root, signature } = exe;
+        let mut lowering_scoped = ScopedArena::default();
+        lowering_scoped.defs = statics.scoped_definitions(&scoped);
+        let stackir = BuiltinRootLowerer::new(&spans, &mut lowering_scoped, &statics, root, signature).run().map_err(|e| format!("{e}"))?;
+        Ok::<_, String>(SpsLowPipeline::new(&mut lowering_scoped).run(stackir))
+    });
+    match r {
+        | Ok(Ok(p)) => LoweredSps::Ok(Box::new(p)),
+        | Ok(Err(e)) => LoweredSps::Refused(e),
+        | Err(p) => LoweredSps::Panic(p),
+    }
+}
+
 pub fn lower(exe: ExecutableProgram) -> Lowered {
     match catch(|| BackendProgram::lower(exe)) {
         | Ok(Ok(b)) => Lowered::Ok(Box::new(b)),
